@@ -183,7 +183,8 @@ class C04(HistPlan):
 
     def required(self, counts, sets, other):
         acc = ["Arc::count", "Arc::strong_count", "ArcBorrow::strong_count", "ArcBorrow::with_arc", "ArcUnion::strong_count",
-               "ArcUnionBorrow::strong_count", "OffsetArc::strong_count", "OffsetArc::with_arc", "with_raw_offset_arc", "nested-callbacks"]
+               "ArcUnionBorrow::strong_count", "OffsetArc::strong_count", "OffsetArc::with_arc", "with_raw_offset_arc", "nested-callbacks",
+               "inside-eq-cmp-hash-fmt", "inside-with_arc_mut", "ThinArc::strong_count", "ThinArc::with_arc"]
         return need(counts, ["count_obs." + a for a in acc]) + HistPlan.required(self, counts, sets, other)
 
 
@@ -198,22 +199,25 @@ class C03seq(HistPlan):
 
 
 
-def conc_jobs(mode, scen, total, seed, props, delay=1, nshards=4, first0=0, length=8, timeout=900):
+def conc_jobs(mode, scen, total, seed, props, delay=1, nshards=4, first0=0, length=8, timeout=900, forced=False):
     jobs = []
     for (first, cnt) in shards(total, nshards):
         args = ["conc", "scen=%s" % scen, "seed=%d" % seed, "first=%d" % (first0 + first), "n=%d" % cnt, "len=%d" % length, "delay=%d" % delay]
+        if forced:
+            # every scenario of this job is expanded into a forced-preemption sweep (one long preemption at each count operation)
+            args.append("forced=%d" % cnt)
         if mode in ("asan", "tsan"):
             args.append("shadow=0")
         jobs.append(Job(mode, args, san_props=props, crash_props=props, timeout=timeout))
     return jobs
 
 
-def miri_conc_jobs(scen, nseeds, per, seed, props, tb_every=5, first0=0, length=6, extra_flags=()):
+def miri_conc_jobs(scen, nseeds, per, seed, props, tb_every=5, first0=0, length=6, extra_flags=(), forced=False):
     jobs = []
     for i in range(nseeds):
         tb = tb_every and (i % tb_every == tb_every - 1)
         extra = extra_flags[i % len(extra_flags)] if extra_flags else ""
-        jobs.append(Job("miri", ["conc", "scen=%s" % scen, "seed=%d" % seed, "first=%d" % (first0 + i * per), "n=%d" % per, "len=%d" % length, "delay=1"],
+        jobs.append(Job("miri", ["conc", "scen=%s" % scen, "seed=%d" % seed, "first=%d" % (first0 + i * per), "n=%d" % per, "len=%d" % length, "delay=1"] + (["forced=%d" % per] if forced else []),
                         san_props=props, crash_props=props, miri_seed=seed * 4096 + i, tb=bool(tb), miri_extra=extra, timeout=1500))
     return jobs
 
@@ -227,6 +231,17 @@ def thin_jobs(mode, total, ops, seed, san_props, crash_props, nshards=4, first0=
 
 
 PREEMPT = ("", "-Zmiri-preemption-rate=0.1", "", "-Zmiri-preemption-rate=0.3", "-Zmiri-preemption-rate=0.03")
+
+
+def forced_jobs(scen, seed, p, big):
+    """Forced-preemption sweeps: natively (count-after-free + count-history + identity monitors), under ASan, TSan and Miri."""
+    j = []
+    j += conc_jobs("dbg", scen, 4000 if big else 96, seed, p, delay=0, nshards=16 if big else 2, first0=20 * 10 ** 6, forced=True, timeout=3000)
+    j += conc_jobs("rel", scen, 4000 if big else 48, seed, p, delay=0, nshards=16 if big else 1, first0=21 * 10 ** 6, forced=True, timeout=3000)
+    j += conc_jobs("asan", scen, 1600 if big else 48, seed, p, delay=0, nshards=16 if big else 2, first0=22 * 10 ** 6, forced=True, timeout=3000)
+    j += conc_jobs("tsan", scen, 1600 if big else 48, seed, p, delay=0, nshards=16 if big else 2, first0=23 * 10 ** 6, forced=True, timeout=3000)
+    j += miri_conc_jobs(scen, 96 if big else 6, 1, seed, p, first0=24 * 10 ** 6, forced=True)
+    return j
 
 
 class C02(Plan):
@@ -246,6 +261,7 @@ class C02(Plan):
             j += conc_jobs("tsan", "clonedrop", 10000, seed, p, delay=2, nshards=3, first0=3 * 10 ** 6)
             j += conc_jobs("asan", "clonedrop", 4000, seed, p, delay=2, nshards=2, first0=4 * 10 ** 6)
             j += miri_conc_jobs("clonedrop", 64, 6, seed, p, first0=5 * 10 ** 6, extra_flags=PREEMPT)
+            j += forced_jobs("clonedrop", seed, p, big=False)
         else:
             j += conc_jobs("dbg", "clonedrop", 300000, seed, p, delay=1, nshards=8)
             j += conc_jobs("rel", "clonedrop", 300000, seed, p, delay=2, nshards=8, first0=10 ** 6)
@@ -254,6 +270,7 @@ class C02(Plan):
                 j += conc_jobs("tsan", "clonedrop", 330000, seed, p, delay=d, nshards=8, first0=(2 + d) * 10 ** 6, timeout=3000)
             j += conc_jobs("asan", "clonedrop", 100000, seed, p, delay=2, nshards=8, first0=5 * 10 ** 6, timeout=3000)
             j += miri_conc_jobs("clonedrop", 2048, 6, seed, p, first0=7 * 10 ** 6, extra_flags=PREEMPT)
+            j += forced_jobs("clonedrop", seed, p, big=True)
         return j
 
     def coverage(self, counts, sets, samples, other, results):
@@ -267,6 +284,8 @@ class C02(Plan):
                  "some thread that read the payload",
             samples=samples,
             destroyer_thread_histogram=sub(counts, "conc.destroyer."),
+            forced_preemption_scenarios=counts.get("conc.forced_scenarios", 0),
+            forced_preemption_runs=counts.get("conc.forced_runs", 0),
             count_events=counts.get("conc.count_events", 0),
             payload_reads=counts.get("conc.payload_reads", 0),
             miri_seeds=sum(1 for r in results if r.job.mode == "miri"),
@@ -302,6 +321,7 @@ class HistConc(HistPlan):
             j += conc_jobs("tsan", self.scen, 20000, seed, p, delay=1, nshards=4, first0=2 * 10 ** 6)
             j += conc_jobs("asan", self.scen, 2000, seed, p, delay=2, nshards=1, first0=3 * 10 ** 6)
             j += miri_conc_jobs(self.scen, 48, self.per_cycle, seed, p, first0=4 * 10 ** 6, extra_flags=PREEMPT)
+            j += forced_jobs(self.scen, seed, p, big=False)
         else:
             j += conc_jobs("dbg", self.scen, 200000, seed, p, delay=1, nshards=8)
             j += conc_jobs("rel", self.scen, 200000, seed, p, delay=2, nshards=8, first0=10 ** 6)
@@ -309,6 +329,7 @@ class HistConc(HistPlan):
                 j += conc_jobs("tsan", self.scen, 330000, seed, p, delay=d, nshards=8, first0=(2 + d) * 10 ** 6, timeout=3000)
             j += conc_jobs("asan", self.scen, 50000, seed, p, delay=2, nshards=4, first0=5 * 10 ** 6, timeout=3000)
             j += miri_conc_jobs(self.scen, 1024, self.per_cycle, seed, p, first0=6 * 10 ** 6, extra_flags=PREEMPT)
+            j += forced_jobs(self.scen, seed, p, big=True)
         return j
 
 
@@ -368,6 +389,7 @@ class C03(HistConc):
             samples=samples,
             per_api=t,
             schedule_executions=sub(counts, "conc.uniqpoll."),
+            forced_preemption_runs=counts.get("conc.forced_runs", 0),
             distinct_interleavings=len(sets.get("interleavings", ())),
             miri_seeds=sum(1 for r in results if r.job.mode == "miri"),
         )
@@ -406,6 +428,7 @@ class C08(HistConc):
             samples=samples,
             per_api=t,
             schedule_executions=sub(counts, "conc.cow."),
+            forced_preemption_runs=counts.get("conc.forced_runs", 0),
             miri_seeds=sum(1 for r in results if r.job.mode == "miri"),
         )
 
@@ -443,6 +466,7 @@ class C09(HistConc):
             into_inner_calls=counts.get("uniq.into_inner", 0),
             moved_out=sub(counts, "moved_out_by."),
             race_outcomes=sub(counts, "conc.unwraprace."),
+            forced_preemption_runs=counts.get("conc.forced_runs", 0),
             distinct_interleavings=len(sets.get("interleavings", ())),
             miri_seeds=sum(1 for r in results if r.job.mode == "miri"),
         )
